@@ -112,6 +112,18 @@ func StructConfigs(thorough bool, caches []string, formats []string) []*world.Co
 	// two live trees sharing in-memory nodes (clone either way), both modified and persisted
 	cs = append(cs, world.WithTwoSlots(world.UintCfg(2, ulist(1, 2, 3, 4), 1, f0, "none"), 5))
 	cs = append(cs, world.WithTwoSlots(world.UintCfg(2, ulist(1, 2, 4), 1, formats[len(formats)-1], "big"), 5))
+	for _, cache := range caches {
+		if cache == "big" {
+			// node objects shared through the cache: spare capacity in a cached node's slices (exact key), and
+			// two trees of one version loaded through the same warm cache
+			cs = append(cs, world.ExactKey(depth(world.IntCfg(4, []int{1, 4, 5, 8, 9, 12}, []interface{}{"a", "b"}, "", f0, "big"), 5)))
+			sd := 4
+			if thorough {
+				sd = 6
+			}
+			cs = append(cs, SharedCacheSeeded(f0, sd))
+		}
+	}
 	// failing MakeRoot calls (a class of Store calls or one Marshal call fails) anywhere in the history
 	cs = append(cs, world.WithFlushFaults(world.UintCfg(2, urange(1, 4), 1, f0, "none")))
 	cs = append(cs, world.WithFlushFaults(depth(world.UintCfg(2, urange(1, 4), 1, formats[len(formats)-1], "big"), 6)))
@@ -141,6 +153,22 @@ func LateInsertSeeded(format string, d int) *world.Config {
 	c.Seed = append(c.Seed, world.Op{Kind: world.OpPersist})
 	c.MaxDepth = d
 	c.Name = fmt.Sprintf("seeded-late-inserts/%s/depth%d", c.Name, d)
+	return c
+}
+
+// SharedCacheSeeded: branch factor 4, int keys {1,2,4,5,6,8,9,10}; [1] 4 [5] 8 [9 10] built, separators first
+// (the one-key leaves are created last and keep spare capacity in their slices: measured, cap 4), persisted with a node cache attached, the root kept and loaded into a second
+// tree through the warm cache: two trees of one version sharing cached node objects. Then every history
+// of length <= d of the two-slot alphabet.
+func SharedCacheSeeded(format string, d int) *world.Config {
+	c := world.IntCfg(4, []int{1, 2, 4, 5, 6, 8, 9, 10}, []interface{}{"a"}, "", format, "big")
+	for _, k := range []int{2, 5, 6, 7, 3, 0} {
+		c.Seed = append(c.Seed, world.Op{Kind: world.OpIns, K: k, V: 0})
+	}
+	c.Seed = append(c.Seed, world.Op{Kind: world.OpKeep, A: 0, B: 0}, world.Op{Kind: world.OpLoad, A: 1, B: 0})
+	c.TwoSlots = true
+	c.MaxDepth = d
+	c.Name = fmt.Sprintf("seeded-shared-cache-two-trees/%s/depth%d", c.Name, d)
 	return c
 }
 
@@ -286,6 +314,8 @@ func C05ExtraConfigs(thorough bool) []*world.Config {
 	// bodies longer than 127 bytes (two-byte length prefixes) and a node with more than 127 entries
 	long := strings.Repeat("0123456789", 30)
 	cs = append(cs, world.IntCfg(2, []int{1, 2, 3, 4}, []interface{}{long, "s"}, "", B, "none"))
+	// bodies of exactly 127, 128 and 129 bytes (quoted strings of 125, 126, 127 characters): the boundary of the one-byte length prefix
+	cs = append(cs, world.IntCfg(2, []int{1, 2, 3}, []interface{}{strings.Repeat("x", 125), strings.Repeat("y", 126), strings.Repeat("z", 127)}, "", B, "none"))
 	cs = append(cs, world.IntCfg(4, []int{1, 2, 4, 8}, []interface{}{long, ""}, "", M, "none"))
 	cs = append(cs, seededFull(world.UintCfg(256, urange(1, 130), 1, B, "none"), 1))
 	tg := world.UintCfg(2, urange(1, 5), 2, M, "none")
